@@ -498,6 +498,23 @@ impl LogReader {
     }
 }
 
+/// Crate-only methods
+impl LogReader {
+    /**
+    Returns true if every byte of the file has been consumed as part of a complete physical
+    record (or block trailer).
+
+    This is only meaningful after [`LogReader::read_record`] signalled the end of the file. A
+    `false` means that the file ends with a partially written header, payload or trailer e.g.
+    because the writer died in the middle of a write. A log with such a tail must not be appended
+    to: the reader stops at the partial bytes, so records written behind them could never be read
+    back.
+    */
+    pub(crate) fn is_at_clean_end(&self) -> LogIOResult<bool> {
+        Ok((self.current_cursor_position as u64) == self.len()?)
+    }
+}
+
 /// Private methods.
 impl LogReader {
     /**
